@@ -112,19 +112,27 @@ def main():
         if v is None:
             cnt('offline.unparsable_literal')
             continue
+        # recorded finding: literal with blanks around the exponent mark and 64+ other characters decodes as its mantissa alone
+        stripped = text.replace(' ', '').replace('\t', '')
+        long_ws = stripped != text and len(stripped) >= 64
+        mant = exact_value(text.split(' ')[0].split('\t')[0])[0] if long_ws else None
         if kind == 'D':
             want = round_binary(v, 53, -1074, 1023)
             got = bits_to_fraction64(b)
             ok = (want == got) if want != 'inf' else got == 'inf'
             cnt('offline.double_rechecked')
-            if not ok:
+            if not ok and long_ws and mant is not None and round_binary(mant, 53, -1074, 1023) == got:
+                viol.append(('C04:long-literal-with-exponent-white-space-decoded-as-mantissa', 'ParamDouble("%s") = %s (offline, exact arithmetic)' % (text, got)))
+            elif not ok:
                 viol.append(('C04:double-value:offline-exact-arithmetic', 'ParamDouble("%s") bits %016x = %s, exact rounding gives %s' % (text, b, got, want)))
         elif kind == 'F':
             want = round_binary(v, 24, -149, 127)
             got = bits_to_fraction32(b)
             ok = (want == got) if want != 'inf' else got == 'inf'
             cnt('offline.float_rechecked')
-            if not ok:
+            if not ok and long_ws and mant is not None and round_binary(mant, 24, -149, 127) == got:
+                viol.append(('C04:long-literal-with-exponent-white-space-decoded-as-mantissa', 'ParamFloat("%s") = %s (offline, exact arithmetic)' % (text, got)))
+            elif not ok:
                 viol.append(('C04:float-value:offline-exact-arithmetic', 'ParamFloat("%s") bits %08x = %s, exact rounding gives %s' % (text, b, got, want)))
         elif kind == 'U':
             exact = v * mult_fraction(extra)
